@@ -6,9 +6,10 @@ for sizes 1..32 and the ambient (global) pool, each scenario family in its own O
 the process varies (the concurrent index types fix their shard count lazily per process); (c) nested install.
 Every instance's result is compared with the reference (= what it computes alone)."""
 import json
+import os
 import random
 
-from vlib import core, pipeline as P, diffrun
+from vlib import core, pipeline as P, diffrun, sanitize
 from vgen import gen as G, gen2 as G2, emit as E, corpus, byods as B
 
 LEVEL = 'exploration'
@@ -131,6 +132,31 @@ def run(ctx, only=None):
     diffrun.run_cases(ctx, cases, on_ok=on_ok, per_job_timeout=300)
     stat['distinct_pool_triples'] = len(triples)
     ctx.cov.update(stat)
+    if (ctx.tier == 'thorough' or os.environ.get('VERIF_SAN')) and not only:
+        # TSan on concurrent instance groups (mixed serial / parallel instances sharing the process): any report with a /repo
+        # frame other than the write-only statistics statics is a violation
+        rng = random.Random(ctx.rng.getrandbits(48))
+        san = []
+        pick = [c for c in cases if c.name.startswith('k_')] + [c for c in cases if not c.name.startswith('k_')][:6]
+        by = {}
+        for c in pick:
+            c2 = P.Case(c.name + 'ts', c.ref_prog, c.variants, meta=c.meta)
+            c2.mk, c2.rng = c.mk, c.rng
+            by[c.name] = c2
+            san.append(c2)
+        for g in range(24):
+            k = rng.choice([2, 4, 8])
+            for m in range(k):
+                c2 = rng.choice(san)
+                v = rng.choice(c2.variants)
+                rows = c2.mk(c2.rng)
+                if len(rows) > 200:
+                    rows = rows[:200]
+                params = {'group': 'g%d' % g}
+                if v.par:
+                    params['pool'] = rng.choice([2, 3, 4])
+                c2.jobs.append(P.Job('%s_g%d_m%d_%s' % (c2.name, g, m, v.name), c2, v, rows, params=params, meta={'scenario': 'concurrent', 'group_size': k, 'triple': None}))
+        ctx.cov['tsan'] = sanitize.run_cases_san(ctx, san, 'tsan', per_job_timeout=900, on_ok=on_ok)
 
 
 def replay(ctx, path):
